@@ -218,6 +218,38 @@ def run(ctx):
                     rep.check(any(steps_have(a, src[0], src[1]) for a in ats), "C06.R4", "wsc-build:%s.%s<-%s.%s" % (adt.rsplit("::", 1)[-1], rf, src[0], src[1]),
                               "row field derives from the record field", "%s.%s does not derive from %s.%s" % (adt, rf, src[0], src[1]), site=bo.loc(line))
         rep.check(found, "C06.R4", "wsc-build:%s-constructed" % adt.rsplit("::", 1)[-1], "row constructed", "%s is no longer constructed in build_one_warp_input" % adt, site=bo.loc())
+    # ONE blob arena: attachment rows carry offsets into the arena that is written to the file.  Every `att_to_row` call of the
+    # build (node plane and edge plane) must append to the same arena local; two arenas concatenated afterwards leave the second
+    # plane's offsets pointing into the first plane's bytes.  Evaluated on the helper-inlined view (the per-plane loop is a
+    # natural candidate for extraction into a helper).
+    from ..inline import inline_view
+    bo_v, _p = inline_view(prog, bo)
+    arenas = set()
+    n_att = 0
+    for b_ in bo_v.call_sites(r"wsc::build::att_to_row$"):
+        t_ = bo_v.blocks[b_]["t"]
+        n_att += 1
+        # root local behind the `&mut Vec<u8>` argument
+        stack, seen_ = [t_["args"][1]], set()
+        while stack:
+            o_ = stack.pop()
+            pl = op_place(o_)
+            if pl is None or pl[0] in seen_:
+                continue
+            seen_.add(pl[0])
+            ty_ = bo_v.locals[pl[0]]
+            if ty_.startswith("std::vec::Vec<u8"):
+                arenas.add(pl[0])
+                continue
+            for d in bo_v.defs().get(pl[0], ()):
+                if d[0] == "assign":
+                    if "p" in d[4]:
+                        stack.append({"c": d[4]["p"]})
+                    for o2 in operands_of_rvalue(d[4]):
+                        stack.append(o2)
+    rep.check(n_att >= 2 and len(arenas) == 1, "C06.R4", "wsc-build:one-blob-arena", "%d att_to_row sites append to one arena" % n_att,
+              "the columnar build appends attachment blobs to %d different arenas (%d att_to_row sites): rows of one plane carry offsets relative to their own arena, so after the "
+              "arenas are concatenated they resolve to another plane's bytes" % (len(arenas), n_att), site=bo.loc())
     vw = prog.fn("warp_core::wsc::validate::validate_wsc")
     trv, _ = tree(prog, [vw])
     live = constructed_variants(trv, "warp_core::wsc::read::ReadError")
